@@ -335,6 +335,7 @@ struct TaskCtx {
   std::vector<void *> owned_strings;    // crypt_gensalt_ra results not yet freed
   const char *last_gensalt_static = nullptr;
   std::string last_des_out;
+  int last_errno = 0;
   std::map<std::string, std::vector<std::string>> null_rbytes_results;  // C12-3
 };
 struct Run {
@@ -628,6 +629,10 @@ static void exec_hash(Run &r, int t, int i, const J &op) {
   if (op.has("phs") && (size_t)op.i("phs") < r.shared.size()) { c.phrase = Bytes(r.shared[(size_t)op.i("phs")]); php = r.shared[(size_t)op.i("phs")].c_str(); stat("probe_shared_readonly_input"); }
   if (op.has("sts") && (size_t)op.i("sts") < r.shared.size()) { c.setting = Bytes(r.shared[(size_t)op.i("sts")]); stp = r.shared[(size_t)op.i("sts")].c_str(); stat("probe_shared_readonly_input"); }
   std::string stsrc = op.str("stsrc", "lit");
+  // (Arguments that live inside an UNDERSIZED crypt_ra block are not generated: the unchanged library wipes and
+  // reallocates that block before it reads them - with a moving realloc ASan reports a use-after-free in
+  // make_failure_token - so that is a caller error, not a history to explore.  Seeded change C15-r4a lives there.)
+  const bool args_in_slot_block = false;
   bool phrase_in_output = false;
   if (op.i("phout") && obj && cd && full_object && !c.phrase.null && c.phrase.b.size() < sizeof cd->output && stsrc != "out") {
     // the caller keeps the passphrase in the object's output field and passes a pointer to it.  Nothing is promised
@@ -710,7 +715,7 @@ static void exec_hash(Run &r, int t, int i, const J &op) {
 
   char *ret = nullptr; int err = 0;
   thr::api_boundary(t, i, true);
-  int errno_at_entry = (int)op.i("errno0", 0);
+  int errno_at_entry = op.i("errno_keep") ? tc.last_errno : (int)op.i("errno0", 0);   // errno_keep: whatever the previous call left (callers rarely reset it)
   int fds_before = count_open_fds();
   DeepRange dr = deepcall(t, [&]() {
     errno = errno_at_entry;      // arbitrary at entry, as in any real caller
@@ -726,7 +731,7 @@ static void exec_hash(Run &r, int t, int i, const J &op) {
   if (r.ntasks == 1 && count_open_fds() != fds_before)
     violation(nullptr, "fd-leak", t, i, vfmt("%s returned with %d more file descriptor(s) open than before the call", c.kind.c_str(), count_open_fds() - fds_before));
 
-  c.ret_null = ret == nullptr; c.err = err;
+  c.ret_null = ret == nullptr; c.err = err; tc.last_errno = err;
   if (ret) c.res = ret;
   c.failed = c.ret_null || (!c.res.empty() && c.res[0] == '*');
   // where is the output field?
@@ -765,8 +770,8 @@ static void exec_hash(Run &r, int t, int i, const J &op) {
   }
   bool exp_fail = must_fail || !exp.ok;
 
-  if (phrase_in_output) {
-    stat(c.failed ? "phrase_in_output_call_failed" : "phrase_in_output_call_succeeded");
+  if (phrase_in_output || args_in_slot_block) {
+    stat(c.failed ? "aliased_args_call_failed" : "aliased_args_call_succeeded");
   } else if (r.o_ref || r.o_c05 || r.o_c15) {
     if (aliased && c.failed && !exp_fail) {
       stat("aliased_setting_call_failed_closed");     // legal: see above
@@ -778,6 +783,14 @@ static void exec_hash(Run &r, int t, int i, const J &op) {
                                                   c.phrase.null ? "NULL" : ("\"" + hexenc(c.phrase.b).substr(0, 24) + "..\"").c_str(),
                                                   c.setting.null ? "NULL" : c.setting.b.c_str(), c.failed ? "failed" : ("returned \"" + c.res + "\"").c_str(),
                                                   exp_fail ? "fails" : ("returns \"" + exp.str + "\"").c_str(), must_fail ? " (must fail by the statement)" : ""));
+    } else if (c.failed && !must_fail && exp.err && c.err != exp.err && fv.effective == 0) {
+      // same request, same failure - but another errno than in a fresh process: the code picked depends on what an
+      // earlier call (or the caller) left in errno.  C15's "the next call behaves normally" covers it after a fault;
+      // elsewhere it is only counted (no statement promises which of the documented codes is used).
+      stat("incidental_failure_errno_differs_from_fresh_process");
+      if (r.o_c15 && op.i("errno_keep"))
+        violation(nullptr, "errno-from-earlier-call", t, i, vfmt("%s(.., %s) failed with errno=%d; the same request in a fresh process fails with errno=%d (errno at entry was %d, left by the previous call)",
+                                                                 c.kind.c_str(), c.setting.null ? "NULL" : c.setting.b.c_str(), c.err, exp.err, errno_at_entry));
     } else if (!c.failed && c.res != exp.str) {
       violation(nullptr, "result", t, i, vfmt("%s(.., %s) returned \"%s\" here but \"%s\" when evaluated alone on a fresh object", c.kind.c_str(), c.setting.b.c_str(), c.res.c_str(), exp.str.c_str()));
     } else if (!c.failed && c.have_out && c.out_str != c.res) {
